@@ -53,7 +53,7 @@ def _unescape(s):
 
 def run_tlc(scratch, tla, cfg, *, simulate=None, depth=None, seed=0, workers=None,
             timeout=600, out_traces=None, coverage=False, tag="tlc", extra_files=(), deadlock=True,
-            heap=None, append_traces=False, cfg_subst=None):
+            heap=None, append_traces=False, cfg_subst=None, emit_every=1, emit_offset=0):
     """Run TLC on spec/<tla> with spec/<cfg>. TRACE lines are written (as
     JSON, one per line) to out_traces; GRAPHS/CASE lines are returned.
     Returns a dict with states/distinct/depth/ok/errors/coverage."""
@@ -87,6 +87,9 @@ def run_tlc(scratch, tla, cfg, *, simulate=None, depth=None, seed=0, workers=Non
         cmd += ["-coverage", "1"]
     cmd.append(tla)
     env = dict(os.environ)
+    # sampling of the emitted behaviours inside TLC (specs that read IOEnv.VERIF_EMIT_EVERY)
+    env["VERIF_EMIT_EVERY"] = str(int(emit_every))
+    env["VERIF_EMIT_OFFSET"] = str(int(emit_offset) % max(1, int(emit_every)))
     if heap:
         env["JAVA_TOOL_OPTIONS"] = (env.get("JAVA_TOOL_OPTIONS", "") + " -Xmx%s" % heap).strip()
     t0 = time.time()
